@@ -159,4 +159,14 @@ Section Footprints.
     | Some a => deterministic a && (i <? j) && negb (written i (firstn (j - i) (skipn i ops)) (rset a))
     | None => false
     end.
+  (* numpy's global generator is part of what an unseeded Monte-Carlo operation reads.  When the caller re-seeds it
+     (np.random.seed(s)) to the same value before both occurrences, the operation must return the same object as long as
+     nothing ELSE it reads was written in between: the test ignores writes to Rng. *)
+  Definition is_rng (c : cell) : bool := match c with Rng => true | _ => false end.
+  Definition same_result_if_reseeded (ops : list op) (i j : nat) : bool :=
+    match nth_error ops i with
+    | Some a => (match a with Fit _ _ _ => false | _ => true end) && (i <? j)
+                && negb (written i (firstn (j - i) (skipn i ops)) (filter (fun c => negb (is_rng c)) (rset a)))
+    | None => false
+    end.
 End Footprints.
